@@ -56,6 +56,18 @@ Theorem C20_fill_sample_size_irrelevant : forall s1 s2 order input,
   sam_fill s1 order input = sam_fill s2 order input.
 Proof. exact fill_sample_size_irrelevant. Qed.
 
+(** the sample size takes no part in the accounting: trackers that differ in it only go through the same states and
+    give the same results under every operation but [fill_sample] *)
+Theorem C20_sample_size_is_inert : forall s n o,
+  is_fill o = false ->
+  samstep_t (with_samples s n) o = (with_samples (fst (samstep_t s o)) n, snd (samstep_t s o)).
+Proof. exact samstep_samples_irrelevant. Qed.
+
+Theorem C20_sample_size_is_inert_history : forall ops s n,
+  forallb (fun o => negb (is_fill o)) ops = true ->
+  samrun (with_samples s n) ops = with_samples (samrun s ops) n.
+Proof. exact samrun_samples_irrelevant. Qed.
+
 Example C20_saturates_witness :
   let s := samrun (sam_new 100 1000) [SInc 1 5; SInc 2 7] in
   sam_fill s (scosts s) [(9, 9)] = (9, 9) :: scosts s /\ length (scosts s) = 2%nat.
@@ -80,3 +92,5 @@ Print Assumptions C20_remove_reports_cost.
 Print Assumptions C20_fill_sample.
 Print Assumptions C20_fill_sample_saturates.
 Print Assumptions C20_fill_sample_size_irrelevant.
+Print Assumptions C20_sample_size_is_inert.
+Print Assumptions C20_sample_size_is_inert_history.
